@@ -1,4 +1,5 @@
-(* Proofs for Model/Filter.v over R (property C13). *)
+(* Proofs for Model/Filter.v over R (property C13).  The [_old] definitions are the code before the
+   repairs 8375f2f / 7981b02 / b057b94; their refutations are kept as history. *)
 From Coq Require Import Reals Lra Lia List Arith ZArith Psatz.
 From PV Require Import Base.Num Base.Mat Model.Filter.
 Import ListNotations.
@@ -278,16 +279,18 @@ Proof.
   apply (msym_congr n m); [assumption | assumption | apply ukf_Py_sym].
 Qed.
 
-Theorem ukf_core_psd : PSD n Pp.
+(* x^T P' x = x^T Pm x - z^T Py z  with  z = K^T x, and that difference is a sum of squares *)
+Lemma ukf_core_decomp x : length x = n ->
+  exists z S2, length z = m /\ 0 <= S2 /\
+    qform Pp x = qform Pm x - qform Py z /\
+    qform Pm x - qform Py z = qform Q x + qform Rm z + S2.
 Proof.
   assert (HPm := ukf_Pm_wf). assert (HPy := ukf_Py_wf). assert (HPxy := ukf_Pxy_wf).
   destruct (pinv_spec Py ukf_Py_spd) as (HSi & HI1 & HI2).
   destruct ukf_Py_spd as (_ & SPy & _).
   assert (SSi : msym (pinv Py)) by now apply (minv_sym m Py).
   assert (HK : wf n m K) by (unfold K; eauto with wf).
-  intros x Hx. unfold Pp.
-  rewrite (qform_msub n) by eauto 8 with wf.
-  rewrite (qform_congr n m) by assumption.
+  intros Hx.
   set (z := mapply (mtr K) x).
   assert (Lz : length z = m) by (unfold z; apply (length_mapply m n); eauto with wf).
   set (b := mapply (mtr Pxy) x).
@@ -298,6 +301,8 @@ Proof.
   assert (EPyz : mapply Py z = b).
   { rewrite Ez. rewrite <- (mapply_mmul m m m) by assumption. rewrite HI1.
     apply mapply_mid; [eapply wf_pos_r; eassumption | assumption]. }
+  assert (E0 : qform Pp x = qform Pm x - qform Py z).
+  { unfold Pp. rewrite (qform_msub n) by eauto 8 with wf. now rewrite (qform_congr n m) by assumption. }
   (* T := qform Py z = z . b = x . (Pxy z) = cross sum *)
   assert (E1 : qform Py z = vdot x (mapply Pxy z)).
   { unfold qform. rewrite EPyz. unfold b.
@@ -307,7 +312,7 @@ Proof.
   assert (E2 : vdot x (mapply Pxy z) =
                sumn N (fun i => vget w i * vget (mapply Ex x) i * vget (mapply Ey z) i)).
   { unfold Pxy, wcov. now apply (vdot_wgram N n m). }
-  rewrite (ukf_qform_Pm x Hx).
+  assert (E4 := ukf_qform_Pm x Hx).
   assert (E3 := ukf_qform_Py z Lz).
   set (a := mapply Ex x) in *. set (c := mapply Ey z) in *.
   assert (G : 0 <= sumn N (fun i => vget w i * (vget a i - vget c i) * (vget a i - vget c i))).
@@ -319,9 +324,27 @@ Proof.
                - 2 * sumn N (fun i => vget w i * vget a i * vget c i)
                + sumn N (fun i => vget w i * vget c i * vget c i)).
   { rewrite <- sumn_scal_l, <- sumn_minus, <- sumn_plus. apply sumn_ext. intros i _. ring. }
+  exists z, (sumn N (fun i => vget w i * (vget a i - vget c i) * (vget a i - vget c i))).
+  split; [exact Lz|]. split; [exact G|]. split; [exact E0|]. lra.
+Qed.
+
+Theorem ukf_core_psd : PSD n Pp.
+Proof.
+  intros x Hx. destruct (ukf_core_decomp x Hx) as (z & S2 & Lz & HS2 & E0 & E1).
   assert (0 <= qform Q x) by now apply PQ.
   assert (0 <= qform Rm z) by (apply (PD_PSD m Rm HR PR); assumption).
   lra.
+Qed.
+
+(* strictly positive when the predicted covariance is *)
+Theorem ukf_core_pd : PD n Pm -> PD n Pp.
+Proof.
+  intros PPm x Hx Hnz. destruct (ukf_core_decomp x Hx) as (z & S2 & Lz & HS2 & E0 & E1).
+  assert (0 <= qform Q x) by now apply PQ.
+  destruct (nonzero_dec z) as [Hz|Hz].
+  - assert (0 < qform Rm z) by now apply PR. lra.
+  - assert (qform Py z = 0) by (apply (qform_zero_vec m); [apply ukf_Py_wf | assumption | assumption]).
+    assert (0 < qform Pm x) by now apply PPm. lra.
 Qed.
 End UKFcore.
 
@@ -389,7 +412,7 @@ Hypothesis SR : msym Rm.
 Hypothesis PQ : PSD n Q.
 Hypothesis PR : PD m Rm.
 
-Theorem ukf_cov_symmetric_psd by_cols x y (P : matR) k :
+Theorem ukf_old_cov_symmetric_psd by_cols x y (P : matR) k :
   wf n n P -> length x = n -> 0 <= k -> 0 < IZR (Z.of_nat n) + k ->
   exists x' P', ukf_forward_gen pinv msqrt by_cols false s Q Rm x y u P k = Some (x', P') /\
                 length x' = n /\ wf n n P' /\ msym P' /\ PSD n P'.
@@ -499,7 +522,7 @@ Definition c1W : list R := [0; 0].
 Definition c2W : list R := [0].
 
 Lemma ekf_witness_values pinv : pinv_ok 1 pinv ->
-  fst (ekf_forward pinv (lin_system AW BW CW DW c1W c2W) QW RW xW yW uW PW) = [9/8; 9/16] /\
+  fst (ekf_forward_old pinv (lin_system AW BW CW DW c1W c2W) QW RW xW yW uW PW) = [9/8; 9/16] /\
   fst (kf_step pinv AW BW CW DW c1W c2W QW RW xW yW uW PW) = [1/4; 1/8].
 Proof.
   intros Hp.
@@ -508,7 +531,7 @@ Proof.
   { apply (pinv_value 1); [assumption | | apply wf_lit_1x1 | mcompute].
     split; [apply wf_lit_1x1 | split; [reflexivity | apply PD_1x1; lra]]. }
   split.
-  - unfold ekf_forward, ekf_forward_gen. cbn [lin_system sf sh sA sC fst]. rewrite HS, Hinv. mcompute.
+  - unfold ekf_forward_old, ekf_forward_gen. cbn [lin_system sf sh sA sC fst]. rewrite HS, Hinv. mcompute.
   - unfold kf_step, kf_predict, kf_update. cbn [fst]. rewrite HS, Hinv. mcompute.
 Qed.
 
@@ -545,7 +568,7 @@ Definition z1 : list R := [0].
 Definition y1 : list R := [1].
 
 Lemma ukf_witness1_values pinv msqrt : pinv_ok 1 pinv -> cholesky_ok 1 msqrt ->
-  ukf_forward pinv msqrt (lin_system A1 B1 A1 B1 z1 z1) Q1 R1 z1 y1 z1 P1 3 = Some ([2/5], [[16/5]]) /\
+  ukf_forward_old pinv msqrt (lin_system A1 B1 A1 B1 z1 z1) Q1 R1 z1 y1 z1 P1 3 = Some ([2/5], [[16/5]]) /\
   kf_step pinv A1 B1 A1 B1 z1 z1 Q1 R1 z1 y1 z1 P1 = ([4/5], [[4/5]]).
 Proof.
   intros Hp Hc.
@@ -558,7 +581,7 @@ Proof.
     split; [apply wf_lit_1x1 | split; [reflexivity | apply PD_1x1; lra]]. }
   assert (Hi4 : pinv [[5]] = [[/5]]) by exact Hi5.
   split.
-  - unfold ukf_forward, ukf_forward_gen.
+  - unfold ukf_forward_old, ukf_forward_gen.
     assert (E1 : sigma_points_gen msqrt false z1 P1 3 = Some ([[0]; [2]; [-2]], [3/4; 1/8; 1/8])).
     { unfold sigma_points_gen. cbv zeta.
       match goal with |- context [msqrt ?M] => replace M with [[4]] by (symmetry; mcompute) end.
@@ -601,7 +624,7 @@ Definition P2 : matR := [[1; 1/2]; [1/2; 1/2]].
 Definition z2 : list R := [0; 0].
 
 Lemma ukf_witness2_values msqrt : cholesky_ok 2 msqrt ->
-  ukf_predict msqrt (lin_system I2 B2 I2 B2 z2 z2) Q2 z2 [0] P2 2 = Some ([0; 0], [[9/4; 3/4]; [3/4; 5/4]]) /\
+  ukf_predict_old msqrt (lin_system I2 B2 I2 B2 z2 z2) Q2 z2 [0] P2 2 = Some ([0; 0], [[9/4; 3/4]; [3/4; 5/4]]) /\
   kf_predict I2 B2 z2 Q2 z2 [0] P2 = ([0; 0], [[2; 1]; [1; 3/2]]).
 Proof.
   intros Hc.
@@ -610,7 +633,7 @@ Proof.
     { split; [apply wf_lit_2x2 | split; [reflexivity | apply PD_2x2; lra]]. }
     apply (chol_2x2 _ 2 1 1); try assumption; try lra. rewrite HLL. list_eq; lra. }
   split.
-  - unfold ukf_predict, ukf_predict_gen.
+  - unfold ukf_predict_old, ukf_predict_gen.
     assert (E1 : sigma_points_gen msqrt false z2 P2 2 =
                  Some ([[0; 0]; [2; 0]; [1; 1]; [-2; 0]; [-1; -1]], [1/2; 1/8; 1/8; 1/8; 1/8])).
     { unfold sigma_points_gen. cbv zeta.
@@ -694,13 +717,13 @@ Proof.
   apply map_ext. intros a. rewrite E. mnum. field. split; lra.
 Qed.
 
-Theorem pf_forward_lognorm_irrelevant (pinv msqrt : matR -> matR) (ln1 ln2 : matR -> R)
+Theorem pf_forward_lognorm_irrelevant (pinv msqrt : matR -> matR) (ln1 ln2 : matR -> R) (at_prop : bool)
   (s : @system R) Q Rm x y u P eps r :
-  pf_forward pinv msqrt ln1 s Q Rm x y u P eps r = pf_forward pinv msqrt ln2 s Q Rm x y u P eps r.
+  pf_forward_gen pinv msqrt ln1 at_prop s Q Rm x y u P eps r = pf_forward_gen pinv msqrt ln2 at_prop s Q Rm x y u P eps r.
 Proof.
-  unfold pf_forward. f_equal. unfold pf_loglik.
+  unfold pf_forward_gen. f_equal. unfold pf_loglik.
   set (base := fun yi : list R => (zero - half * qform (pinv Rm) (vminus y yi))%num).
-  set (ye := map (fun p => sh s p u) (pf_particles msqrt x P eps)).
+  set (ye := map (fun p => sh s p u) _).
   transitivity (softmax (map base ye)).
   - rewrite <- (softmax_shift (map base ye) (ln1 Rm)). rewrite map_map. reflexivity.
   - rewrite <- (softmax_shift (map base ye) (ln2 Rm)) at 1. rewrite map_map. reflexivity.
@@ -747,34 +770,11 @@ Proof.
   induction steps as [|yu steps IH]; intros x P HP SP PP; cbn zeta.
   - cbn. auto.
   - rewrite ekf_run_cons. cbn [fst snd].
-    destruct (ekf_cov_symmetric_psd pinv n m s Q Rm x (fst yu) (snd yu) P false Hp (HA _ _) (HC _ _) HP HQ HR SP SQ SR PP PQ PR)
+    destruct (ekf_cov_symmetric_psd pinv n m s Q Rm x (fst yu) (snd yu) P true Hp (HA _ _) (HC _ _) HP HQ HR SP SQ SR PP PQ PR)
       as (W & S' & P'').
     unfold ekf_forward.
-    destruct (ekf_forward_gen pinv false s Q Rm x (fst yu) (snd yu) P) as [x1 P1] eqn:E. cbn [snd] in *.
+    destruct (ekf_forward_gen pinv true s Q Rm x (fst yu) (snd yu) P) as [x1 P1] eqn:E. cbn [snd] in *.
     apply (IH x1 P1); assumption.
-Qed.
-
-Theorem ukf_run_cov_valid (pinv msqrt : matR -> matR) n m (s : @system R) Q Rm k :
-  pinv_ok m pinv -> msqrt_shape n msqrt -> (0 < n)%nat -> (0 < m)%nat ->
-  (forall p u, length p = n -> length (sf s p u) = n) -> (forall p u, length p = n -> length (sh s p u) = m) ->
-  wf n n Q -> wf m m Rm -> msym Q -> msym Rm -> PSD n Q -> PD m Rm ->
-  0 <= k -> 0 < IZR (Z.of_nat n) + k ->
-  forall steps x P, wf n n P -> length x = n ->
-  exists x' P', ukf_run pinv msqrt s Q Rm k (Some (x, P)) steps = Some (x', P') /\
-                length x' = n /\ wf n n P' /\ (steps <> [] -> msym P' /\ PSD n P').
-Proof.
-  intros Hp Hm Hn Hmm Hf Hh HQ HR SQ SR PQ PR Hk Hnk steps.
-  induction steps as [|yu steps IH]; intros x P HP Hx.
-  - exists x, P. split; [reflexivity|]. split; [assumption|]. split; [assumption|]. intros H. congruence.
-  - unfold ukf_run. cbn [fold_left fst snd].
-    destruct (ukf_cov_symmetric_psd pinv msqrt n m Hp Hm Hn Hmm s (snd yu) (fun p => Hf p _) (fun p => Hh p _)
-                Q Rm HQ HR SQ SR PQ PR false x (fst yu) P k HP Hx Hk Hnk) as (x1 & P1 & E & L1 & W1 & S1 & PS1).
-    unfold ukf_forward. rewrite E.
-    destruct (IH x1 P1 W1 L1) as (x2 & P2 & E2 & L2 & W2 & V2).
-    exists x2, P2. split; [exact E2|]. split; [assumption|]. split; [assumption|].
-    intros _. destruct steps as [|yu2 steps'].
-    + cbn in E2. injection E2 as <- <-. split; assumption.
-    + apply V2. discriminate.
 Qed.
 
 (* ================================================================== contracts are satisfiable *)
@@ -844,14 +844,23 @@ Proof.
       rewrite E1. field. lra.
 Qed.
 
-(* ================================================================== the refutations *)
-(* EKF = KF on linear systems (the clause as the property states it) *)
-Definition ekf_linear_is_kf : Prop :=
+(* ================================================================== the clauses, and the refutations of the OLD code *)
+(* EKF = KF on linear systems (the clause as the property states it), for a given forward function *)
+Definition ekf_linear_is_kf_for
+  (fwd : (matR -> matR) -> @system R -> matR -> matR -> list R -> list R -> list R -> matR -> list R * matR) : Prop :=
   forall (n m p : nat) (pinv : matR -> matR) (A B C D : matR) (c1 c2 : list R) (Q Rm : matR)
          (x y u : list R) (P : matR),
     pinv_ok m pinv -> wf n n A -> wf n p B -> wf m n C -> wf m p D -> length c1 = n -> length c2 = m ->
     SPD n Q -> SPD m Rm -> SPD n P -> length x = n -> length y = m -> length u = p ->
-    ekf_forward pinv (lin_system A B C D c1 c2) Q Rm x y u P = kf_step pinv A B C D c1 c2 Q Rm x y u P.
+    fwd pinv (lin_system A B C D c1 c2) Q Rm x y u P = kf_step pinv A B C D c1 c2 Q Rm x y u P.
+Definition ekf_linear_is_kf : Prop := ekf_linear_is_kf_for (@ekf_forward R NumR).
+Definition ekf_old_linear_is_kf : Prop := ekf_linear_is_kf_for (@ekf_forward_old R NumR).
+
+Theorem ekf_linear_is_kf_holds : ekf_linear_is_kf.
+Proof.
+  intros n m p pinv A B C D c1 c2 Q Rm x y u P _ HA _ _ _ _ _ _ _ (HP & _) _ _ _.
+  exact (ekf_documented_linear_is_kf pinv A B C D c1 c2 Q Rm x y u P n HA HP).
+Qed.
 
 Lemma SPD_QW : SPD 2 QW.
 Proof. split; [apply wf_lit_2x2 | split; [reflexivity | apply PD_2x2; lra]]. Qed.
@@ -860,17 +869,17 @@ Proof. split; [apply wf_lit_2x2 | split; [reflexivity | apply PD_2x2; lra]]. Qed
 Lemma SPD_RW : SPD 1 RW.
 Proof. split; [apply wf_lit_1x1 | split; [reflexivity | apply PD_1x1; lra]]. Qed.
 
-Theorem ekf_linear_witness :
+Theorem ekf_old_linear_witness :
   wf 2 2 AW /\ wf 2 1 BW /\ wf 1 2 CW /\ wf 1 1 DW /\ SPD 2 QW /\ SPD 1 RW /\ SPD 2 PW /\
   forall pinv, pinv_ok 1 pinv ->
-    fst (ekf_forward pinv (lin_system AW BW CW DW c1W c2W) QW RW xW yW uW PW) = [9/8; 9/16] /\
+    fst (ekf_forward_old pinv (lin_system AW BW CW DW c1W c2W) QW RW xW yW uW PW) = [9/8; 9/16] /\
     fst (kf_step pinv AW BW CW DW c1W c2W QW RW xW yW uW PW) = [1/4; 1/8].
 Proof.
   split; [apply wf_lit_2x2|]. split; [apply wf_lit_2x1|]. split; [apply wf_lit_1x2|]. split; [apply wf_lit_1x1|].
   split; [apply SPD_QW|]. split; [apply SPD_RW|]. split; [apply SPD_PW|]. exact ekf_witness_values.
 Qed.
 
-Theorem ekf_linear_is_kf_refuted : ~ ekf_linear_is_kf.
+Theorem ekf_old_linear_is_kf_refuted : ~ ekf_old_linear_is_kf.
 Proof.
   intros H.
   specialize (H 2%nat 1%nat 1%nat _ AW BW CW DW c1W c2W QW RW xW yW uW PW pinv_ok_1_satisfiable
@@ -880,45 +889,64 @@ Proof.
   rewrite H in E1. rewrite E1 in E2. injection E2. intros. lra.
 Qed.
 
-(* the code = the documented recursion (innovation at the predicted state)? *)
-Definition ekf_is_documented_recursion : Prop :=
+(* the five equations of the EKF documentation, spelled out *)
+Definition ekf_documented (pinv : matR -> matR) (s : @system R) (Q Rm : matR) (x y u : list R) (P : matR)
+  : list R * matR :=
+  let A := sA s x u in
+  let C := sC s x u in
+  let xm := sf s x u in                                                                     (* 1 *)
+  let Pm := madd (mmul (mmul A P) (mtr A)) Q in                                             (* 2 *)
+  let K := mmul (mmul Pm (mtr C)) (pinv (madd (mmul (mmul C Pm) (mtr C)) Rm)) in            (* 3 *)
+  (vplus xm (mapply K (vminus y (sh s xm u))),                                              (* 4 *)
+   mmul (msub (mid (mcols P)) (mmul K C)) Pm).                                              (* 5 *)
+
+Theorem ekf_nonlinear_is_documented_recursion (pinv : matR -> matR) (s : @system R) Q Rm x y u P :
+  ekf_forward pinv s Q Rm x y u P = ekf_documented pinv s Q Rm x y u P.
+Proof. reflexivity. Qed.
+
+Definition ekf_old_is_documented_recursion : Prop :=
   forall (n m p : nat) (pinv : matR -> matR) (s : @system R) (Q Rm : matR) (x y u : list R) (P : matR),
     pinv_ok m pinv -> wf n n (sA s x u) -> wf m n (sC s x u) -> SPD n Q -> SPD m Rm -> SPD n P ->
     length x = n -> length y = m -> length u = p ->
-    ekf_forward pinv s Q Rm x y u P = ekf_forward_gen pinv true s Q Rm x y u P.
+    ekf_forward_old pinv s Q Rm x y u P = ekf_documented pinv s Q Rm x y u P.
 
-Theorem ekf_is_documented_recursion_refuted : ~ ekf_is_documented_recursion.
+Theorem ekf_old_is_documented_recursion_refuted : ~ ekf_old_is_documented_recursion.
 Proof.
   intros H.
   specialize (H 2%nat 1%nat 1%nat _ (lin_system AW BW CW DW c1W c2W) QW RW xW yW uW PW pinv_ok_1_satisfiable
                 (wf_lit_2x2 _ _ _ _) (wf_lit_1x2 _ _) SPD_QW SPD_RW SPD_PW eq_refl eq_refl eq_refl).
+  rewrite <- ekf_nonlinear_is_documented_recursion in H.
+  unfold ekf_forward in H.
   rewrite (ekf_documented_linear_is_kf _ AW BW CW DW c1W c2W QW RW xW yW uW PW 2
              (wf_lit_2x2 _ _ _ _) (wf_lit_2x2 _ _ _ _)) in H.
   destruct (ekf_witness_values _ pinv_ok_1_satisfiable) as [E1 E2].
   rewrite H in E1. rewrite E1 in E2. injection E2. intros. lra.
 Qed.
 
-(* what does hold of the code: covariance, gain and predicted state are the documented ones; only the
-   innovation differs *)
-Theorem ekf_covariance_is_documented (pinv : matR -> matR) (s : @system R) Q Rm x y u P :
-  snd (ekf_forward pinv s Q Rm x y u P) = snd (ekf_forward_gen pinv true s Q Rm x y u P).
+(* the old code had the documented covariance; only the innovation differed *)
+Theorem ekf_old_covariance_is_documented (pinv : matR -> matR) (s : @system R) Q Rm x y u P :
+  snd (ekf_forward_old pinv s Q Rm x y u P) = snd (ekf_documented pinv s Q Rm x y u P).
 Proof. reflexivity. Qed.
 
 (* UKF = KF on linear systems *)
-Definition ukf_linear_is_kf : Prop :=
+Definition ukf_linear_is_kf_for
+  (fwd : (matR -> matR) -> (matR -> matR) -> @system R -> matR -> matR -> list R -> list R -> list R -> matR -> R
+         -> option (list R * matR)) : Prop :=
   forall (n m p : nat) (pinv msqrt : matR -> matR) (A B C D : matR) (c1 c2 : list R) (Q Rm : matR)
          (x y u : list R) (P : matR) (k : R),
     pinv_ok m pinv -> cholesky_ok n msqrt ->
     wf n n A -> wf n p B -> wf m n C -> wf m p D -> length c1 = n -> length c2 = m ->
     SPD n Q -> SPD m Rm -> SPD n P -> length x = n -> length y = m -> length u = p ->
     - IZR (Z.of_nat n) < k ->
-    ukf_forward pinv msqrt (lin_system A B C D c1 c2) Q Rm x y u P k =
+    fwd pinv msqrt (lin_system A B C D c1 c2) Q Rm x y u P k =
     Some (kf_step pinv A B C D c1 c2 Q Rm x y u P).
+Definition ukf_linear_is_kf : Prop := ukf_linear_is_kf_for (@ukf_forward R NumR).
+Definition ukf_old_linear_is_kf : Prop := ukf_linear_is_kf_for (@ukf_forward_old R NumR).
 
 Lemma SPD_lit_1x1 a : 0 < a -> SPD 1 [[a]].
 Proof. intros. split; [apply wf_lit_1x1 | split; [reflexivity | now apply PD_1x1]]. Qed.
 
-Theorem ukf_linear_is_kf_refuted : ~ ukf_linear_is_kf.
+Theorem ukf_old_linear_is_kf_refuted : ~ ukf_old_linear_is_kf.
 Proof.
   intros H.
   assert (E := H 1%nat 1%nat 1%nat _ _ A1 B1 A1 B1 z1 z1 Q1 R1 z1 y1 z1 P1 3
@@ -930,20 +958,23 @@ Proof.
   rewrite E1, E2 in E. injection E. intros. lra.
 Qed.
 
-(* the sigma points of the model do not have the covariance they are built from *)
-Definition ukf_predict_linear_is_kf_predict : Prop :=
+(* predicted mean and covariance = Kalman prediction *)
+Definition ukf_predict_linear_is_kf_predict_for
+  (prd : (matR -> matR) -> @system R -> matR -> list R -> list R -> matR -> R -> option (list R * matR)) : Prop :=
   forall (n m p : nat) (msqrt : matR -> matR) (A B C D : matR) (c1 c2 : list R) (Q : matR)
          (x u : list R) (P : matR) (k : R),
     cholesky_ok n msqrt -> wf n n A -> wf n p B -> wf m n C -> wf m p D -> length c1 = n -> length c2 = m ->
     SPD n Q -> SPD n P -> length x = n -> length u = p -> - IZR (Z.of_nat n) < k ->
-    ukf_predict msqrt (lin_system A B C D c1 c2) Q x u P k = Some (kf_predict A B c1 Q x u P).
+    prd msqrt (lin_system A B C D c1 c2) Q x u P k = Some (kf_predict A B c1 Q x u P).
+Definition ukf_predict_linear_is_kf_predict : Prop := ukf_predict_linear_is_kf_predict_for (@ukf_predict R NumR).
+Definition ukf_old_predict_linear_is_kf_predict : Prop := ukf_predict_linear_is_kf_predict_for (@ukf_predict_old R NumR).
 
 Lemma SPD_Q2 : SPD 2 Q2.
 Proof. split; [apply wf_lit_2x2 | split; [reflexivity | apply PD_2x2; lra]]. Qed.
 Lemma SPD_P2 : SPD 2 P2.
 Proof. split; [apply wf_lit_2x2 | split; [reflexivity | apply PD_2x2; lra]]. Qed.
 
-Theorem ukf_predict_linear_is_kf_predict_refuted : ~ ukf_predict_linear_is_kf_predict.
+Theorem ukf_old_predict_linear_is_kf_predict_refuted : ~ ukf_old_predict_linear_is_kf_predict.
 Proof.
   intros H.
   assert (E := H 2%nat 2%nat 1%nat _ I2 B2 I2 B2 z2 z2 Q2 z2 [0] P2 2 cholesky_ok_2_satisfiable
@@ -1351,4 +1382,172 @@ Proof.
   rewrite (wf_rows n n Pm WPm).
   f_equal. f_equal.
   apply (kf_cov_forms pinv n m Pm C Rm); try assumption. now apply PD_PSD.
+Qed.
+
+
+(* ================================================================== the clauses hold for the current code *)
+Theorem ukf_linear_is_kf_holds : ukf_linear_is_kf.
+Proof.
+  intros n m p pinv msqrt A B C D c1 c2 Q Rm x y u P k Hp Hc HA HB HC HD Hc1 Hc2 HQ HR HP Hx _ Hu Hk.
+  unfold ukf_forward. apply (ukf_repaired_linear_is_kf n m p); try assumption; [now apply cholesky_ok_factor_ok | lra].
+Qed.
+
+Theorem ukf_predict_linear_is_kf_predict_holds : ukf_predict_linear_is_kf_predict.
+Proof.
+  intros n m p msqrt A B C D c1 c2 Q x u P k Hc HA HB HC HD Hc1 Hc2 (WQ & SQ & PQ) HP Hx Hu Hk.
+  assert (Hs := cholesky_ok_factor_ok n msqrt Hc).
+  assert (Hn : (0 < n)%nat) by (eapply wf_pos_r; exact HA).
+  assert (Hnk : 0 < IZR (Z.of_nat n) + k) by lra.
+  unfold ukf_predict, ukf_predict_gen, kf_predict.
+  rewrite (sigma_points_repaired msqrt n Hs k Hnk x P Hx HP).
+  cbv zeta. cbn [lin_system sf].
+  rewrite (repaired_mean msqrt n Hn Hs k Hnk x P Hx HP n p A B c1 u Hn HA HB Hc1 Hu).
+  unfold wcov.
+  rewrite (repaired_cov msqrt n Hn Hs k Hnk x P Hx HP n n p A B A B c1 c1 u Hn Hn HA HB Hc1 HA HB Hc1 Hu).
+  destruct HP as (WP & _). rewrite (madd_comm n n Q) by eauto 8 with wf. reflexivity.
+Qed.
+
+(* ================================================================== UKF covariance of the current code *)
+Lemma PSD_wgram N n (w : list R) (E : matR) : wf N n E -> (forall i, (i < N)%nat -> 0 <= vget w i) ->
+  PSD n (mmul (mtr (rowscale w E)) E).
+Proof.
+  intros HE Hw x Hx. unfold qform. rewrite (vdot_wgram N n n) by assumption.
+  apply sumn_nonneg. intros i Hi. specialize (Hw i Hi).
+  pose proof (Rle_0_sqr (vget (mapply E x) i)) as HH. unfold Rsqr in HH.
+  rewrite Rmult_assoc. now apply Rmult_le_pos.
+Qed.
+Lemma PD_madd_l n (A B : matR) : wf n n A -> wf n n B -> PD n A -> PSD n B -> PD n (madd A B).
+Proof.
+  intros HA HB PA PB x Hx Hn. rewrite (qform_madd n) by assumption.
+  specialize (PA x Hx Hn). specialize (PB x Hx). lra.
+Qed.
+(* the zero matrix, as 0 * I *)
+Definition Zm (n : nat) : matR := mscale 0 (mid n).
+Lemma Zm_wf n : (0 < n)%nat -> wf n n (Zm n). Proof. intros. unfold Zm. eauto with wf. Qed.
+Lemma Zm_sym n : (0 < n)%nat -> msym (Zm n).
+Proof. intros H. unfold Zm. apply (msym_mscale n); [eauto with wf | now apply mtr_mid]. Qed.
+Lemma Zm_psd n : (0 < n)%nat -> PSD n (Zm n).
+Proof. intros H x Hx. unfold Zm. rewrite (qform_mscale n) by eauto with wf. lra. Qed.
+Lemma Zm_madd n (G : matR) : wf n n G -> madd (Zm n) G = G.
+Proof.
+  intros HG. assert (Hn : (0 < n)%nat) by (eapply wf_pos_r; exact HG).
+  apply (mat_ext n n); [apply wf_madd; now apply Zm_wf | assumption |].
+  intros i j Hi Hj. rewrite (mget_madd n n) by (try assumption; now apply Zm_wf).
+  unfold Zm. rewrite (mget_mscale n n) by eauto with wf. mnum. lra.
+Qed.
+
+(* sample covariance of the (column) sigma points about their centre = the matrix they were built from *)
+Lemma repaired_self msqrt n (Hn : (0 < n)%nat) (Hs : factor_ok n msqrt) k (Hnk : 0 < IZR (Z.of_nat n) + k)
+  x (P : matR) (Hx : length x = n) (HP : SPD n P) :
+  let pts := rows_of (S (n + n)) (sigma_fun n x (mtr (msqrt (mscale (IZR (Z.of_nat n) + k) P)))) in
+  mmul (mtr (rowscale (ukf_weights n k) (dev_rows x pts))) (dev_rows x pts) = P.
+Proof.
+  cbv zeta. destruct (rep_L msqrt n Hs k Hnk P HP) as (WL & EL).
+  assert (WX := rep_X_wf msqrt n Hs k Hnk P HP).
+  set (X := mtr (msqrt (mscale (IZR (Z.of_nat n) + k) P))) in *.
+  assert (WP : wf n n P) by (destruct HP; assumption).
+  unfold dev_rows, rows_of. rewrite !map_map.
+  change (map (fun i => vminus x (sigma_fun n x X i)) (seq 0 (S (n + n))))
+    with (rows_of (S (n + n)) (fun i => vminus x (sigma_fun n x X i))).
+  assert (DS : stack_spec n n (-1) (vzero n) X (fun i => vminus x (sigma_fun n x X i))).
+  { apply (dev_stack n Hn x Hx n x X (sigma_fun n x X) Hx). exact (pts_stack msqrt n Hn Hs k Hnk x P Hx HP). }
+  rewrite (stack_gram n n n (-1) (-1) X X _ _ k Hn Hn Hn WX WX DS DS).
+  unfold X in *. rewrite (mtr_mtr n n) by assumption. rewrite EL.
+  rewrite (mscale_mscale n n) by assumption. rewrite (two_wr n k Hnk). now apply (mscale_one n n).
+Qed.
+
+Section UKFnow.
+Variable pinv : matR -> matR.
+Variable msqrt : matR -> matR.
+Variables n m : nat.
+Hypothesis pinv_spec : pinv_ok m pinv.
+Hypothesis msqrt_spec : factor_ok n msqrt.
+Hypothesis Hn : (0 < n)%nat.
+Hypothesis Hm : (0 < m)%nat.
+Variable s : @system R.
+Variable u : list R.
+Hypothesis Hf : forall p, length p = n -> length (sf s p u) = n.
+Hypothesis Hh : forall p, length p = n -> length (sh s p u) = m.
+Variables Q Rm : matR.
+Hypothesis HQ : SPD n Q.
+Hypothesis HR : SPD m Rm.
+
+(* UKF.forward as coded, any (nonlinear) system, non-negative centre weight: the call returns and the
+   covariance is symmetric positive definite *)
+Theorem ukf_cov_spd x y (P : matR) k :
+  SPD n P -> length x = n -> 0 <= k -> 0 < IZR (Z.of_nat n) + k ->
+  exists x' P', ukf_forward pinv msqrt s Q Rm x y u P k = Some (x', P') /\ length x' = n /\ SPD n P'.
+Proof.
+  intros HP Hx Hk Hnk. destruct HQ as (WQ & SQ & PQ). destruct HR as (WR & SR & PR).
+  unfold ukf_forward, ukf_forward_gen.
+  rewrite (sigma_points_repaired msqrt n msqrt_spec k Hnk x P Hx HP).
+  set (N := S (n + n)). set (w := ukf_weights n k).
+  assert (HN : (0 < N)%nat) by (unfold N; lia).
+  assert (Hw : forall i, (i < N)%nat -> 0 <= vget w i) by (intros i _; now apply ukf_weights_nonneg).
+  set (pts := rows_of N (sigma_fun n x (mtr (msqrt (mscale (IZR (Z.of_nat n) + k) P))))).
+  assert (Lpts : length pts = N) by (unfold pts, rows_of; now rewrite map_length, seq_length).
+  assert (Rpts : forall r, In r pts -> length r = n).
+  { intros r Hr. unfold pts, rows_of in Hr. apply in_map_iff in Hr. destruct Hr as [i [<- Hi]]. apply in_seq in Hi.
+    destruct (pts_stack msqrt n Hn msqrt_spec k Hnk x P Hx HP) as (PL & _). apply PL. unfold N in Hi. lia. }
+  cbv zeta.
+  set (xs := map (fun p => sf s p u) pts).
+  assert (Hxs : wf N n xs) by (unfold xs; apply wf_map_rows; try assumption; intros r Hr; apply Hf; now apply Rpts).
+  set (xe := wsum_rows w xs).
+  assert (Lxe : length xe = n) by (unfold xe, wsum_rows; rewrite length_mkvec; eapply wf_cols; eassumption).
+  set (ex := dev_rows xe xs).
+  assert (Hex : wf N n ex).
+  { unfold ex, dev_rows. apply wf_map_rows; try assumption; [now destruct Hxs as (_ & _ & -> & _)|].
+    intros r _. now rewrite length_vminus. }
+  set (Pm := wcov ex ex w (Some Q)).
+  assert (HPm : SPD n Pm).
+  { unfold Pm, wcov. split; [eauto with wf|]. split.
+    - apply (msym_madd n); eauto 8 with wf. now apply (msym_wgram N n).
+    - apply PD_madd_l; eauto 8 with wf. now apply (PSD_wgram N n). }
+  rewrite (sigma_points_repaired msqrt n msqrt_spec k Hnk xe Pm Lxe HPm).
+  fold N. fold w.
+  set (pts2 := rows_of N (sigma_fun n xe (mtr (msqrt (mscale (IZR (Z.of_nat n) + k) Pm))))).
+  assert (Lpts2 : length pts2 = N) by (unfold pts2, rows_of; now rewrite map_length, seq_length).
+  assert (Rpts2 : forall r, In r pts2 -> length r = n).
+  { intros r Hr. unfold pts2, rows_of in Hr. apply in_map_iff in Hr. destruct Hr as [i [<- Hi]]. apply in_seq in Hi.
+    destruct (pts_stack msqrt n Hn msqrt_spec k Hnk xe Pm Lxe HPm) as (PL & _). apply PL. unfold N in Hi. lia. }
+  set (ex' := dev_rows xe pts2).
+  assert (Hex' : wf N n ex').
+  { unfold ex', dev_rows. apply wf_map_rows; try assumption. intros r _. now rewrite length_vminus. }
+  set (ys := map (fun p => sh s p u) pts2).
+  assert (Hys : wf N m ys) by (unfold ys; apply wf_map_rows; try assumption; intros r Hr; apply Hh; now apply Rpts2).
+  set (ye := wsum_rows w ys).
+  assert (Lye : length ye = m) by (unfold ye, wsum_rows; rewrite length_mkvec; eapply wf_cols; eassumption).
+  set (ey := dev_rows ye ys).
+  assert (Hey : wf N m ey).
+  { unfold ey, dev_rows. apply wf_map_rows; try assumption; [now destruct Hys as (_ & _ & -> & _)|].
+    intros r _. now rewrite length_vminus. }
+  eexists. eexists. split; [reflexivity|]. split; [now rewrite length_vplus|].
+  (* the predicted covariance is the sample covariance of the second sigma set *)
+  assert (EPm : Pm = wcov ex' ex' w (Some (Zm n))).
+  { unfold wcov, ex', pts2, w, N.
+    rewrite (repaired_self msqrt n Hn msqrt_spec k Hnk xe Pm Lxe HPm).
+    symmetry. apply Zm_madd. now destruct HPm. }
+  rewrite EPm at 1.
+  split; [|split].
+  - eapply ukf_core_wf. now apply Zm_wf.
+  - eapply ukf_core_symmetric; try eassumption; [now apply Zm_wf | now apply Zm_sym].
+  - eapply ukf_core_pd; try eassumption; [now apply Zm_wf | now apply Zm_psd |].
+    rewrite <- EPm. now destruct HPm as (_ & _ & ?).
+Qed.
+End UKFnow.
+
+Theorem ukf_run_cov_valid (pinv msqrt : matR -> matR) n m (s : @system R) Q Rm k :
+  pinv_ok m pinv -> factor_ok n msqrt -> (0 < n)%nat -> (0 < m)%nat ->
+  (forall p u, length p = n -> length (sf s p u) = n) -> (forall p u, length p = n -> length (sh s p u) = m) ->
+  SPD n Q -> SPD m Rm -> 0 <= k -> 0 < IZR (Z.of_nat n) + k ->
+  forall steps x P, SPD n P -> length x = n ->
+  exists x' P', ukf_run pinv msqrt s Q Rm k (Some (x, P)) steps = Some (x', P') /\ length x' = n /\ SPD n P'.
+Proof.
+  intros Hp Hs Hn Hm Hf Hh HQ HR Hk Hnk steps.
+  induction steps as [|yu steps IH]; intros x P HP Hx.
+  - exists x, P. split; [reflexivity|]. split; assumption.
+  - unfold ukf_run. cbn [fold_left fst snd].
+    destruct (ukf_cov_spd pinv msqrt n m Hp Hs Hn Hm s (snd yu) (fun p => Hf p _) (fun p => Hh p _) Q Rm HQ HR
+                x (fst yu) P k HP Hx Hk Hnk) as (x1 & P1 & E & L1 & S1).
+    rewrite E. exact (IH x1 P1 S1 L1).
 Qed.
